@@ -126,7 +126,7 @@ class RandomReplacementBuffer[T](DataBuffer[T, list[T]]):
             data: Data element to add to the buffer.
         """
         if self.is_full:
-            if random.random() > self._replace_probability:
+            if random.random() >= self._replace_probability:
                 return
             replace_index = random.randint(0, self._max_size - 1)
             self._data_list[replace_index] = data
